@@ -146,3 +146,93 @@ def c16(tier, seed, replay=None):
                          "multigrad_dict needs the funcsigs package, which is not installed here: skipped and counted",
                          "container-valued argnum (tuple/list) is covered by C12's container checks, not here"], time.time() - t0, len(verdict.violations))
     return rc
+
+
+def c12(tier, seed, replay=None):
+    t0 = time.time()
+    quick = tier == "quick"
+    verdict = vlib.Verdict("C12")
+    cfg = "CONSTANTS Depth = %d Export = %s Pairs = %s\nSPECIFICATION Spec\nINVARIANT Laws\nINVARIANT GradSane\n"
+    rng = random.Random(seed)
+    states = trans = 0
+    cases = []
+    notes = []
+    for depth, pairs, keep in ([(1, "TRUE", 2500)] if quick else [(1, "TRUE", None), (2, "FALSE", 30000)]):
+        e = vlib.tlc_must_pass(vlib.run_tlc("MCContainers", cfg=cfg % (depth, "TRUE", pairs), workers=1, timeout=3000, tag="MCContainers"), "containers")
+        states += e.distinct
+        trans += e.generated
+        cs = [p for p in e.printed if isinstance(p, dict) and "tree" in p]
+        n_all = len(cs)
+        if keep and len(cs) > keep:
+            # stratify by (tree kind, first step kind, outmode)
+            strata = {}
+            for c in cs:
+                k = (c["tree"]["k"], tuple(st["s"] for t in c["prog"] for st in t["acc"]), c["outmode"], len(c["prog"]))
+                strata.setdefault(k, []).append(c)
+            cs = []
+            keys = sorted(strata, key=str)
+            per = max(1, keep // len(keys))
+            for k in keys:
+                rng.shuffle(strata[k])
+                cs += strata[k][:per]
+        notes.append({"depth": depth, "two_term_programs": pairs == "TRUE", "cases_model_checked": n_all, "replayed": len(cs)})
+        cases += cs
+    for i, c in enumerate(cases):
+        c["id"] = i + 1
+        c["variant"] = i % 4
+    obs, files = vlib.parallel_replay("cont_replay.py", cases, nproc=14, tag="cont")
+    keep_obs = [o for o in obs if not o["err"].startswith("skip:")]
+    for o in keep_obs:
+        o["jvp_want"] = "val:%d" % o["jvp_expected"]
+    d = vlib.subdir("judge-C12")
+    jfiles = [vlib.write_ndjson(os.path.join(d, "o%d.ndjson" % k), part) for k, part in enumerate(vlib.chunks(keep_obs, 8))]
+    accepted, g2, d2, _w, _inv = vlib.parallel_validate("TraceContainers", jfiles, cfg="SPECIFICATION Spec\n", njvm=8)
+    states += d2
+    trans += g2
+    exp = {c["id"]: c for c in cases}
+    for o in keep_obs:
+        c = exp[o["id"]]
+        why = []
+        if o["err"]:
+            why.append(o["err"])
+        else:
+            if o["grad"] != c["grad"]:
+                why.append("gradient leaves %s, expected %s (flatten order %s)" % (o["grad"], c["grad"], c["order"]))
+            if not o["struct_ok"]:
+                why.append("gradient does not have the argument's structure / leaf shapes")
+            if o["jvp"] not in ("skip", "raised", o["jvp_want"]):
+                why.append("forward mode gives %s, expected %s" % (o["jvp"], o["jvp_want"]))
+            if not o["flat_ok"]:
+                why.append("flatten does not list the leaves in traversal / sorted-key order")
+            if not o["unflat_ok"]:
+                why.append("unflatten(flatten(v)) != v")
+            if not o["commute_ok"]:
+                why.append("grad(f o unflatten)(flatten x) != flatten(grad f(x))")
+        if bool(why) == (o["id"] in accepted):
+            raise vlib.MachineryError("TLC and the Python mirror disagree on container observation %d: %s" % (o["id"], why))
+        if why:
+            steps = sorted({st["s"] for t in o["prog"] for st in t["acc"]})
+            verdict.violation({"tree_kind": o["tree"]["k"], "steps": steps, "outmode": o["outmode"]},
+                              {"reason": why, "tree": o["tree"], "prog": o["prog"], "outmode": o["outmode"], "observed_grad": o["grad"]})
+    step_cov = {}
+    for o in keep_obs:
+        for t in o["prog"]:
+            for st in t["acc"]:
+                step_cov[st["s"]] = step_cov.get(st["s"], 0) + 1
+    coverage = {"states": states, "transitions": trans, "traces_validated_against_impl": len(keep_obs), "traces_accepted": len(accepted),
+                "evaluations": len(obs), "distinct_nontrivial": len({json.dumps([o["tree"], o["prog"], o["outmode"]], sort_keys=True) for o in keep_obs if o["prog"]}),
+                "families": notes, "access_steps_exercised": step_cov, "forward_mode": {"raised": sum(1 for o in keep_obs if o["jvp"] == "raised"),
+                                                                                      "value": sum(1 for o in keep_obs if o["jvp"].startswith("val:"))},
+                "exhaustive": not quick,
+                "rule": "a case = (tree, program, output mode): trees = every tuple/list of <= 3 leaves and dict of <= 2 (thorough: depth 2 with nested "
+                        "tuple/list/dict children and empty containers); program = 0, 1 or 2 weighted accesses, each a chain of access operations "
+                        "(index, negative index, slice+index, iteration, unpacking, + and reflected +, dict key/get/items/values), optionally scaled by "
+                        "len(); output = scalar or an autograd tuple/list/dict of the terms; leaves are floats and arrays; dicts are also built in "
+                        "reversed insertion order; flatten laws checked per case",
+                "samples": [{k: o[k] for k in ("tree", "prog", "outmode", "grad", "jvp")} for o in (keep_obs[0], keep_obs[len(keep_obs) // 2], keep_obs[-1])],
+                "known_findings_reobserved": verdict.known_hits}
+    rc = verdict.finish()
+    vlib.write_evidence("C12", tier, seed, "model_checking", coverage,
+                        ["every access operation selects one child: the model resolves accesses to leaves and sums weights; integer weights make the comparison exact",
+                         "container nesting depth <= 2, arity <= 3"], time.time() - t0, len(verdict.violations))
+    return rc
